@@ -320,10 +320,22 @@ func genQueries(r *Rng, keys [][]byte, n int) [][]byte {
 			add(r.Bytes(r.Intn(6)))
 			continue
 		}
-		k := keys[r.Intn(len(keys))]
+		ki := r.Intn(len(keys))
+		k := keys[ki]
 		switch r.Intn(10) {
 		case 0, 1, 2, 3:
 			add(k)
+			if r.Chance(0.35) {
+				// aliasing partners: keys whose ORDINAL differs by a multiple of
+				// a power of two collide in any direct-mapped structure indexed
+				// by leaf ordinal / node id modulo 2^j
+				d := (1 << uint(r.PickI(6, 8, 10, 12))) * r.Range(1, 3)
+				if ki+d < len(keys) {
+					add(keys[ki+d])
+				} else if ki-d >= 0 {
+					add(keys[ki-d])
+				}
+			}
 		case 4:
 			if len(k) > 0 {
 				b := append([]byte{}, k...)
